@@ -71,3 +71,31 @@ package go_clipper2
 //@   ensures [contains] forall(k, 0, len(path), inBounds(result, path[k]))
 //@   ensures [attained] len(path) > 0 ==> (exists(k, 0, len(path), result.left == path[k].X) && exists(k, 0, len(path), result.right == path[k].X) && exists(k, 0, len(path), result.top == path[k].Y) && exists(k, 0, len(path), result.bottom == path[k].Y))
 //@   ensures [empty] len(path) == 0 ==> result == Rect64{}
+
+// ---------------------------------------------------------------------------------
+// C15: TrimCollinear64
+// ---------------------------------------------------------------------------------
+
+//@ spec memberOf(p Point64, path Path64) bool = exists(j, 0, len(path), path[j] == p)
+//@ spec collExact(path Path64) bool = forall(i, 0, len(path), forall(j, 0, len(path), forall(k, 0, len(path), isCollinear(path[i], path[j], path[k]) == (cross(path[i], path[j], path[k]) == 0))))
+
+//@ func TrimCollinear64
+//@   props C15 C03
+//@   requires domPath(path, 29)
+//@   loop 0 invariant [idx] 0 <= i && (i < l || i == 0) && l == len(path)
+//@   loop 0 decreases l - i
+//@   loop 1 invariant [idx] 0 <= i && (i < l || i == 0) && l <= len(path) && l >= 0
+//@   loop 1 decreases l
+//@   loop 2 invariant [idx] 1 <= i && i <= l-1 && l <= len(path) && len(result) >= 1 && len(result) <= i
+//@   loop 2 invariant [last] last == result[len(result)-1]
+//@   loop 2 invariant [first-open] isOpen ==> result[0] == path[0] && l == len(path)
+//@   loop 2 invariant [members] forall(k, 0, len(result), memberOf(result[k], path))
+//@   loop 2 decreases l - i
+//@   loop 3 invariant [members] forall(k, 0, len(result), memberOf(result[k], path))
+//@   loop 3 invariant [len] len(result) >= 1
+//@   loop 3 decreases len(result)
+//@   ensures [open-ends] (isOpen && len(result) > 0) ==> (result[0] == path[0] && result[len(result)-1] == path[len(path)-1])
+//@   ensures [closed-size-if-exact] (!isOpen && collExact(path)) ==> (len(result) == 0 || len(result) >= 3)
+//@   expect  [closed-size] !isOpen ==> (len(result) == 0 || len(result) >= 3)
+//@   ensures [members] forall(k, 0, len(result), memberOf(result[k], path))
+//@   ensures [short] len(path) < 3 && !isOpen ==> len(result) == 0
